@@ -19,6 +19,7 @@ EXPLANATION = (
     "select/zmq _loop is followed by _did_something = True; a cancelled idle/timeout handle is forgotten (reset to None) on every path; (4) RET: remove_alarm / remove_watch_file / "
     "remove_enter_idle return a bool on every path, with both outcomes present; (5) SIB: the select and zmq loops (same state machine) agree on guards, helpers and results."
     ' Added after seed round 3: (7) a registry whose stored values are int parameters (file descriptors) is queried with `in` / `is not None`, never by the truthiness of the stored value.'
+    " Round 4: the Twisted wrapper catches BaseException (the reactor swallows everything else); (8) self-made registry handles come from a counter, never from the registry's size; (9) the Twisted idle timer callback lowers its flag on every normal path."
 )
 NOT_DECIDED = "Exactly-once, not-before-due and due-order of alarms, watch repetition, idle-before-quiescence under all interleavings - scheduler semantics under time."
 ASSUMPTIONS = ["The behaviour of the foreign scheduling APIs on a raising callable (log and continue) is taken from their documentation and recorded in the per-class table."]
